@@ -46,7 +46,7 @@ AOH = ["position", "dpos", "value", "key", "deep"]
 
 # ---- tree edits ---------------------------------------------------------------------------
 SC = ["null", "true", "1", "2", "1.5", "a", "b", "ab", "''", "x y", "' a'", "'a '", "'a\n'"]     # padded: differ from a by white space only
-KEYS = ["a", "b", "c", "id", "name"]
+KEYS = ["a", "b", "c", "id", "name", "'/a'", "'a.b'", "'a/b'", "'&k'", "'x y'"]       # also keys a path must escape (leading /, separators, &, blank)
 
 
 def gen_tree(rng, depth=0, want=None):
